@@ -283,7 +283,7 @@ func (Prop) Gen(seed int64, tier string) *harness.Case {
 		nOps = 40 + r.Intn(60)
 	}
 	kinds := []string{"NewEnv", "NewModule", "Define", "Define", "DefineGlobal", "Set", "Set", "Get", "Get", "Delete", "DeleteGlobal",
-		"DefineType", "DefineGlobalType", "Type", "Type", "ValueSymbols", "TypeSymbols", "Copy", "DeepCopy", "EnvFromPath", "EnvFromPath", "Addr", "String"}
+		"DefineType", "DefineGlobalType", "Type", "Type", "ValueSymbols", "TypeSymbols", "Copy", "DeepCopy", "EnvFromPath", "EnvFromPath", "Addr", "String", "Alias"}
 	if nStubs > 0 {
 		kinds = append(kinds, "SetExt", "SetExt")
 	}
@@ -332,6 +332,12 @@ func (Prop) Gen(seed int64, tier string) *harness.Case {
 			if r.Intn(3) == 0 {
 				op.Iface = 1 + r.Intn(3)
 			}
+		case "Alias":
+			// an existing scope bound as a module under one more name, the way a script's `n, k = [m, 1]` or a
+			// host's DefineValue(name, slice.Index(i)) does it: through a value of kind interface (or directly)
+			op.Name = names[r.Intn(len(names))]
+			op.Val = r.Intn(nScopes)
+			op.Iface = r.Intn(3)
 		case "EnvFromPath":
 			n := r.Intn(4)
 			for j := 0; j < n; j++ {
@@ -509,6 +515,25 @@ func (r *run) step(op Op) (msg string) {
 		}
 		r.mods[mod] = mm
 		r.scopes = append(r.scopes, pair{mod, mm})
+	case "Alias":
+		target := r.scopes[op.Val%len(r.scopes)]
+		var err error
+		switch op.Iface % 3 {
+		case 0:
+			err = e.Define(op.Name, target.real)
+		case 1:
+			err = e.DefineValue(op.Name, reflect.ValueOf([]interface{}{target.real}).Index(0))
+		default:
+			var box interface{} = target.real
+			err = e.DefineValue(op.Name, reflect.ValueOf(&box).Elem())
+		}
+		if s := cmpErr(err, hasDot(op.Name)); s != "" {
+			return s
+		}
+		if err == nil {
+			r.mods[target.real] = target.model
+			m.vals[op.Name] = mval{mod: target.model}
+		}
 	case "Define", "DefineGlobal":
 		var err error
 		mv := mval{id: op.Val, addr: op.Addr}
